@@ -41,7 +41,7 @@ func checkC07(p *Prog, r *Report) {
 	// R11
 	nSpl := 0
 	for _, name := range []string{"NewParams"} {
-		nSpl += checkSpliceLoops(p, r, pc, p.Fn(name))
+		nSpl += checkSpliceLoopsScope(p, r, pc, p.Fn(name))
 	}
 	r.count("splices in NewParams", nSpl) // no floor: a rewrite without splices is legitimate; detection ability is calibrated by the seeded variants
 
@@ -1006,6 +1006,40 @@ func checkCollectionDetection(p *Prog, r *Report, f *ssa.Function) {
 				good = true
 			}
 		}
+		// the question is asked for every relationship URL (three fragments or
+		// more, as NewURL reads them): no upper bound on the number of fragments
+		// among the conditions under which the lookup is made
+		capped := ""
+		for _, ef := range expandFacts(factsAt(lk.Block())) {
+			bo, ok := ef.Cond.(*ssa.BinOp)
+			if !ok {
+				continue
+			}
+			lenSide := func(v ssa.Value) bool {
+				c, _ := callOf(v)
+				if c == nil || builtinName(c.Common()) != "len" {
+					return false
+				}
+				a := c.Common().Args[0]
+				if _, fl, ok := fieldLoad(a); ok && fl == "Fragments" {
+					return true
+				}
+				prm, isPrm := a.(*ssa.Parameter)
+				return isPrm && paramBoundToField(p, prm, "Fragments")
+			}
+			op := bo.Op
+			if !ef.Truth {
+				op = negateCmp(op)
+			}
+			switch {
+			case lenSide(bo.X) && (op == token.EQL || op == token.LSS || op == token.LEQ):
+				capped = p.describe(bo)
+			case lenSide(bo.Y) && (op == token.EQL || op == token.GTR || op == token.GEQ):
+				capped = p.describe(bo)
+			}
+		}
+		r.decide(capped == "", "C07.collection-detection", "NewParams:"+p.describe(lk)+":all-relationship-urls", p.pos(lk.Pos()), "asked for every path of three fragments or more",
+			"the collection question is only asked under "+capped+": a longer relationship URL (which NewURL accepts) is treated as a single resource here, so it gets no sorting rules although it is a collection")
 		r.decide(good, "C07.collection-detection", "NewParams:"+p.describe(lk), p.pos(lk.Pos()), "the relationship of the last fragment is looked up in the type of the first fragment", "whether a relationship URL denotes a collection is decided from a relationship looked up in a type other than the one named by the first path fragment: for a to-many relationship whose target has a to-one relationship of the same name the sorting rules are dropped")
 	})
 	r.floor("collection-detection lookups in NewParams", n, 1)
